@@ -485,7 +485,7 @@ func runC10(c *Ctx) {
 					continue
 				}
 				found = true
-				sd := callsNamed(fn, func(f *types.Func) bool { return isMethod(f, pkgService, "Service", "Shutdown") })
+				sd := callsNamed(fn, func(f *types.Func) bool { return isServiceShutdownFn(p, f) })
 				ok := false
 				for _, s := range sd {
 					if errGuardOn(s.Block(), st[0], false) {
